@@ -73,7 +73,7 @@ static void part_fdplans() {
       uint64_t x = pi;
       for (int k = 0; k < K; k++, x >>= 2) p[k] = V[x & 3];
       C->crumb_n("read_all_fd/file/plan4^8", L, pi);
-      one_read_all_fd(fs, payload, p, false, fmt("plan{1,2,3,F}^8:len%zu", L));
+      one_read_all_fd(fs, payload, p, false, fmt("plan{1,2,3,F}^8:%s", L == 0 ? "len0" : L <= 3 ? "len1-3" : "len4-12"));
     }
     uint64_t nplans_p = 1ULL << (2 * KP);
     for (uint64_t pi = 0; pi < nplans_p; pi++, idx++) {
@@ -84,7 +84,7 @@ static void part_fdplans() {
       FdSource ps(1, "", payload);
       if (ps.fd < 0) continue;
       C->crumb_n("read_all_fd/pipe/plan4^k", L, pi);
-      one_read_all_fd(ps, payload, p, pi & 1, fmt("plan{1,2,3,F}^%d:len%zu", KP, L));
+      one_read_all_fd(ps, payload, p, pi & 1, fmt("plan{1,2,3,F}^%d:%s", KP, L == 0 ? "len0" : L <= 3 ? "len1-3" : "len4-12"));
     }
   }
   if (C->shard == 0) C->sample(fmt("read_all(fd): all 4^%d plans over {1,2,3,F} x payload lengths 0..12 on a regular file (+4^%d on a loaded pipe), e.g. payload=\"%s\" plan=[1,F,3,2,1,1,F,2]", K, KP, det_payload(12, 12).c_str()));
@@ -148,6 +148,7 @@ static void part_exact() {
             bool threw = false;
             io::PlanScope ps(s->fd, p, false, true);
             try {
+              vf::poison_errno();
               phosg::readx(s->fd, buf.data(), size);
             } catch (const std::exception&) {
               threw = true;
@@ -170,6 +171,7 @@ static void part_exact() {
             bool threw = false;
             io::PlanScope ps(s->fd, p, false, true);
             try {
+              vf::poison_errno();
               v = phosg::readx<uint32_t>(s->fd);
             } catch (const std::exception&) {
               threw = true;
@@ -215,6 +217,7 @@ static void part_exact() {
               bool threw = false;
               io::PlanScope ps(s->fd, p, false, true);
               try {
+                vf::poison_errno();
                 phosg::preadx(s->fd, buf.data(), size, (off_t)off);
               } catch (const std::exception&) {
                 threw = true;
@@ -232,6 +235,7 @@ static void part_exact() {
                 s->rewind();
                 string b2(2, 0);
                 try {
+                  vf::poison_errno();
                   phosg::preadx(s->fd, b2.data(), 2, 1);
                 } catch (const std::exception&) {
                 }
